@@ -25,7 +25,7 @@ def tweak_key(k, tweak):
 class GenuineLedger(devices.Device):
     """mode: 2 = bootloader/UI (locked or unlocked), 3 = signer, 'os' = dashboard for admin commands"""
 
-    def __init__(self, rng, legacy_signer=False, pages=None, alter=None):
+    def __init__(self, rng, legacy_signer=False, pages=None, alter=None, ui_pages=None):
         super().__init__(mode=2, onboarded=False)
         self.rng = rng
         self.root = certs.K1Key(rng)            # Ledger's issuer key (root of trust)
@@ -42,6 +42,7 @@ class GenuineLedger(devices.Device):
         self.timestamp = rng.getrandbits(40)
         self.legacy_signer = legacy_signer
         self.page_size = pages or rng.choice([40, 80, 255])
+        self.ui_page_size = ui_pages or self.page_size
         self.ud = None
         self.alter = alter or {}
         self.after_exit = None
@@ -127,8 +128,8 @@ class GenuineLedger(devices.Device):
             if op == 2:
                 msg = self.alt("ui_msg", self.ui_message())
                 page = data[1]
-                chunk = msg[page * self.page_size:(page + 1) * self.page_size]
-                more = 1 if (page + 1) * self.page_size < len(msg) else 0
+                chunk = msg[page * self.ui_page_size:(page + 1) * self.ui_page_size]
+                more = 1 if (page + 1) * self.ui_page_size < len(msg) else 0
                 return devices.D(CLA, 0x50, 2, more, chunk)
             if op == 3:
                 sig = self.attkey.sign(self.ui_message(), self.ui_hash)
